@@ -933,10 +933,11 @@ func (r *c17Runner) apply(op c17Op, check bool) (res c17StepRes) {
 				return
 			}
 			r.rds = rds
-			if s := before.snap.Metadata.Index; s > winHi {
-				winHi = s
-				if winHi > before.last {
-					winHi = before.last
+			// recovery may drop what the snapshot covers: first index anywhere up to snapshot index + 1
+			if s := before.snap.Metadata.Index; s > 0 && s+1 > winHi {
+				winHi = s + 1
+				if winHi > before.last+1 {
+					winHi = before.last + 1
 				}
 			}
 			r.feat["reopen"] = true
@@ -1097,11 +1098,11 @@ func c17CheckImage(rep *kit.Report, img c17Img, cands []c17Cand, winHi uint64) (
 	for _, cd := range cands {
 		cand := cd.v
 		hi := winHi
-		if s := cand.snap.Metadata.Index; s > hi {
-			hi = s
+		if s := cand.snap.Metadata.Index; s > 0 && s+1 > hi {
+			hi = s + 1 // Init drops what the snapshot covers
 		}
-		if hi > cand.last {
-			hi = cand.last
+		if hi > cand.last+1 {
+			hi = cand.last + 1
 		}
 		var d []c17Diff
 		if f < cand.first || (f > cand.first && f > hi) {
@@ -1307,9 +1308,12 @@ func c17CrashCreate(rep *kit.Report, mode string, rw int, only *c17CrashPt) *c17
 	return v
 }
 
+var c17Reported = map[string]int{}
+
 // c17Report re-executes a failing case twice more from scratch (determinism rule) and records it.
 func c17Report(t *testing.T, rep *kit.Report, v *c17Viol) {
-	if os.Getenv("VERIF_C17_NORECHECK") == "" {
+	c17Reported[v.Kind]++
+	if c17Reported[v.Kind] <= 8 { // the report keeps 8 cases per kind in full; those are re-executed
 		for k := 0; k < 2; k++ {
 			w := c17RunCase(rep, v.Case)
 			if w == nil || w.Kind != v.Kind {
@@ -1338,28 +1342,25 @@ func c17Alphabet(mode string, level int) []c17Abs {
 		a = append(a, c17Abs{Kind: "reopen"}, c17Abs{Kind: "del", Sel: "last"}, c17Abs{Kind: "snap", Sel: "mid"})
 		return a
 	}
+	if level == 0 { // reduced alphabet for the deepest level: three files, conflicts one and two files back, reopen, compaction
+		return []c17Abs{
+			{Kind: "save", Back: 0, N: 3, TermUp: 0}, {Kind: "save", Back: 0, N: 3, TermUp: 1}, {Kind: "save", Back: 1, N: 1, TermUp: 1},
+			{Kind: "save", Back: 3, N: 3, TermUp: 1}, {Kind: "save", Back: 5, N: 1, TermUp: 1},
+			{Kind: "reopen"}, {Kind: "del", Sel: "last"}, {Kind: "snap", Sel: "mid"},
+		}
+	}
 	backs := []int{0, 1, 2, 3, 5}
 	if level >= 2 {
 		backs = []int{0, 1, 2, 3, 4, 5, 6}
 	}
-	if level == 0 { // reduced alphabet for the deepest level
-		backs = []int{0, 1, 3}
-	}
 	for _, back := range backs {
 		for _, n := range []int{1, 3} {
 			for _, tu := range []int{0, 1} {
-				if level == 0 && (n == 1 && tu == 0) {
-					continue
-				}
 				a = append(a, c17Abs{Kind: "save", Back: back, N: n, TermUp: tu})
 			}
 		}
 	}
 	a = append(a, c17Abs{Kind: "reopen"})
-	if level == 0 {
-		a = append(a, c17Abs{Kind: "del", Sel: "last"}, c17Abs{Kind: "snap", Sel: "mid"}, c17Abs{Kind: "hs", Sel: "commit"})
-		return a
-	}
 	for _, s := range []string{"mid", "last", "next"} {
 		a = append(a, c17Abs{Kind: "del", Sel: s})
 	}
@@ -1503,10 +1504,12 @@ func TestVerifC17(t *testing.T) {
 			{"crash_rw2_d2", 2, 2, 2, true},
 			{"crash_rw2_d3", 2, 2, 3, true},
 			{"crash_rw1_d2", 1, 2, 2, true},
+			{"crash_rw1_d3", 1, 1, 3, true},
 			{"explore_rw2_d4", 2, 2, 4, false},
 			{"explore_rw1_d4", 1, 1, 4, false},
 			{"explore_rw2_d5", 2, 1, 5, false},
 			{"explore_rw2_d6_reduced", 2, 0, 6, false},
+			{"explore_rw1_d5", 1, 1, 5, false},
 		}
 	}
 	// the empty history: crash during the very first Init
